@@ -123,14 +123,14 @@ class Spy:
 
 def cases(tier, seed):
     out = []
-    reps = 1 if tier == 'quick' else 10
+    reps = 1 if tier == 'quick' else 60
     for prog in progs.cat():
         if 'nonunique' in prog.tags and 'cplx_replay' not in prog.tags:
             continue
         for rep in range(reps):
             for rec in ('ndarray', 'utpm11', 'utpmDP'):
                 out.append({'kind': 'single', 'seed': case_seed('C05', seed, prog.name, rec, rep), 'params': {'prog': prog.name, 'rec': rec}})
-    for i in range(150 if tier == 'quick' else 15000):
+    for i in range(150 if tier == 'quick' else 100000):
         s = case_seed('C05', seed, 'comp', i)
         r = np.random.default_rng(s)
         out.append({'kind': 'comp', 'seed': s, 'params': {'len': int(r.integers(3, 13)), 'rec': ['ndarray', 'utpm11', 'utpmDP'][int(r.integers(3))]}})
